@@ -5,15 +5,18 @@
    holds   id=… kind=… … obs=<obs with , for space>                   →  true | false <reason>
    loop    <o|c|x,…>                      →  closed <n> | open <errorsN>
    h2err   <dial-failed|dial-timeout|tls-failed|eof|bad-preface>      →  o|c|x
-   errresp name=… minor=… close=… connect=… rules=… status=… msg=… err=… closing=…
+   errresp name=… major=… minor=… close=… connect=… rules=… status=… msg=… err=… closing=…
                                           →  <status> <minor> <keepAlive> <declared|none> <bodyLen> <fieldmap>
-   relayresp minor=… close=… rules=… status=… hdr=<name,v,…;name,v,…> body=… closing=…
+   relayresp major=… minor=… close=… rules=… status=… hdr=<name,v,…;name,v,…> body=… closing=…
                                           →  same shape: the relayed transport-level CONNECT rejection
-                                             (hdr = the upstream proxy's header map, canonical keys)
+                                             (hdr = the upstream proxy's header map, canonical keys;
+                                             major.minor = the version the REQUEST line names, the answer's
+                                             <minor> is what `proxyutil.SetProto` makes of it)
 
    relay   method=<hex> status=… hdr=<name,v,…;…> major=… minor=… cl=<int> dup=<0|1>
                                           →  wrote <connect-ok|header-only|sse|chunk|plain> <readsBody> <tunnelFollows> |
-                                             closed | panicked      (what `handle` makes of an upstream reply the
+                                             error <status> <label-hex> | closed | panicked
+                                             (what `handle` makes of an upstream reply the
                                              transport accepted; method CONNECT: the upstream proxy's reply to a
                                              client CONNECT, `handleConnectRequest`)
 
@@ -22,8 +25,8 @@
             martian:<n>  auth  deny  prohibited  canceled  deadline  connect-rejected:<n>
             status-text:<n>:<0|1>  malformed  resp-header-timeout  other
    faults:  none  dial-refused  dial-timeout  dial-reset:<dial|read|write>  tls:<expired|wrong-name|untrusted|garbage|plain-http|not-tls|
-            alert|local-alert|closed|reset|stall>  connect:rejected:<s>:<framed>  connect:rejected-cut:<s>:<n>:<k>  connect:cut:<k>:<reset>:<surfaces>
-            connect:malformed  connect:timeout  head-cut:<k>:<reset>:<surfaces>  head-malformed
+            alert|local-alert|closed|reset|stall>  connect:rejected:<s>:<framed>  connect:rejected-cut:<s>:<n>:<k>  connect:cut:<k>:<reset>:<surfaces>:<eof>
+            connect:malformed  connect:timeout  head-cut:<k>:<reset>:<surfaces>:<eof>  head-malformed
             body-cut:<k>:<reset>:<lost>
    obs:     error <id> <status> <label-hex> <ka> | relayed <id> <status> <wf> <ka> |
             complete <id> <framing> <bytes> <ka> | tunnel <id> |
@@ -112,10 +115,10 @@ def decodeFault (s : String) : Option Fault :=
   | ["tls", f] => do some (.tls (← decodeTLSFault f))
   | ["connect", "rejected", st, fr] => do some (.connectReply (.rejected (← natOf st) (← boolOf fr)))
   | ["connect", "rejected-cut", st, n, k] => do some (.connectReply (.rejectedCut (← natOf st) (← natOf n) (← natOf k)))
-  | ["connect", "cut", k, r, sf] => do some (.connectReply (.cut (← natOf k) (← boolOf r) (← boolOf sf)))
+  | ["connect", "cut", k, r, sf, e] => do some (.connectReply (.cut (← natOf k) (← boolOf r) (← boolOf sf) (← boolOf e)))
   | ["connect", "malformed"] => some (.connectReply .malformed)
   | ["connect", "timeout"] => some (.connectReply .timeout)
-  | ["head-cut", k, r, sf] => do some (.headCut (← natOf k) (← boolOf r) (← boolOf sf))
+  | ["head-cut", k, r, sf, e] => do some (.headCut (← natOf k) (← boolOf r) (← boolOf sf) (← boolOf e))
   | ["head-malformed"] => some .headMalformed
   | ["body-cut", k, r, l] => do some (.bodyCut (← natOf k) (← boolOf r) (← natOf l))
   | _ => none
@@ -163,6 +166,7 @@ def encodeWriter : Writer → String
 
 def encodeRelayed : Relayed → String
   | .wrote w t => s!"wrote {encodeWriter w} {ofBool w.readsBody} {ofBool t}"
+  | .answeredError st l => s!"error {st} {hexOfBytes (b l)}"
   | .closedWithoutResponse => "closed"
   | .panicked => "panicked"
 
@@ -218,6 +222,7 @@ def handle : List String → String
   | "errresp" :: toks =>
     let r? : Option (WireResp) := do
       let name ← bytesOfHex (kvD toks "name" "_")
+      let major ← natOf (kvD toks "major" "1")
       let minor ← natOf (kvD toks "minor" "1")
       let cl ← boolOf (kvD toks "close" "0")
       let isC ← boolOf (kvD toks "connect" "0")
@@ -227,12 +232,13 @@ def handle : List String → String
       let msg ← bytesOfHex (kvD toks "msg" "_")
       let err ← bytesOfHex (kvD toks "err" "_")
       let closing ← boolOf (kvD toks "closing" "0")
-      some (writtenError closing { name := name, minor := minor, close := cl, isConnect := isC, rules := rules } st msg err)
+      some (writtenError closing { name := name, major := major, minor := minor, close := cl, isConnect := isC, rules := rules } st msg err)
     match r? with
     | none => "bad-op"
     | some w => encodeWire w
   | "relayresp" :: toks =>
     let r? : Option (WireResp) := do
+      let major ← natOf (kvD toks "major" "1")
       let minor ← natOf (kvD toks "minor" "1")
       let cl ← boolOf (kvD toks "close" "0")
       let rulesRaw ← bytesList (kvD toks "rules" "~")
@@ -241,7 +247,7 @@ def handle : List String → String
       let up ← decodeHMap (kvD toks "hdr" "~")
       let body ← bytesOfHex (kvD toks "body" "_")
       let closing ← boolOf (kvD toks "closing" "0")
-      some (writtenRelay closing { name := [], minor := minor, close := cl, isConnect := false, rules := rules } st up body)
+      some (writtenRelay closing { name := [], major := major, minor := minor, close := cl, isConnect := false, rules := rules } st up body)
     match r? with
     | none => "bad-op"
     | some w => encodeWire w
